@@ -35,6 +35,9 @@ func init() {
 	})
 	// C06: values around the value threshold (32): inline and value-log placements
 	register("C06", func(c *Ctx) error {
+		if err := runC06Concurrent(c); err != nil {
+			return err
+		}
 		return runSysProfile(c, func(i int) *profile {
 			return &profile{name: "values", wBegin: 4, wModify: 16, wGet: 12, wIter: 6, wCommit: 8, wDiscard: 1, wFlush: 4, wCompact: 3,
 				nOps: 40 + c.Rng.Intn(40), keys: keySetA[:4+c.Rng.Intn(6)], allVersions: true, reverse: true, expiry: true, discardBit: true,
@@ -75,8 +78,8 @@ func init() {
 	// C33: expiry
 	register("C33", func(c *Ctx) error {
 		return runSysProfile(c, func(i int) *profile {
-			return &profile{name: "expiry", wBegin: 5, wModify: 16, wGet: 10, wIter: 8, wCommit: 8, wDiscard: 1, wFlush: 4, wCompact: 5,
-				nOps: 50 + c.Rng.Intn(40), keys: keySetA[:3+c.Rng.Intn(5)], allVersions: true, reverse: true, expiry: true,
+			return &profile{name: "expiry", wBegin: 5, wModify: 18, wGet: 8, wIter: 6, wCommit: 9, wDiscard: 1, wFlush: 8, wCompact: 9, wL0L0: 1,
+				nOps: 60 + c.Rng.Intn(60), keys: keySetA[:3+c.Rng.Intn(4)], allVersions: true, reverse: true, expiry: true,
 				nkeeps: []int{1, 2}, detect: false, bigValues: i%2 == 0}
 		})
 	})
